@@ -500,6 +500,7 @@ func checkRoundTrip(init *mp4.InitSegment, adds []*op, descs [][]*op, wit string
 	if uint64(len(enc)) != init.Size() {
 		fail("InitSegment.Encode", "size", wit, "Size() differs from the number of bytes written")
 	}
+	checkEncodeTwice(init, enc, wit)
 	sw := bits.NewFixedSliceWriter(int(init.Size()))
 	if p := hx.Try(func() { err = init.EncodeSW(sw) }); p != "" || err != nil || !bytes.Equal(sw.Bytes(), enc) {
 		fail("InitSegment.EncodeSW", "differs-from-encode", wit, fmt.Sprintf("EncodeSW differs from Encode (panic %q err %v)", p, err))
@@ -586,7 +587,11 @@ func evalHistory(ops []*op) {
 	adds := []*op{}
 	descs := [][]*op{} // per track: the successful descriptor calls, in order
 	for _, o := range ops {
+		hygieneFail = ""
 		oc := apply(init, o)
+		if hygieneFail != "" {
+			fail(hygieneFail, "writes-into-argument", wit, "op "+o.String()+" changed a NAL unit it was given or the bytes behind it (spare capacity of the caller's slice)")
+		}
 		if oc == 'p' {
 			fail("AddEmptyTrack/Set...Descriptor", "panic-on-valid-arguments", wit, "op "+o.String()+" panics")
 			return
@@ -649,8 +654,21 @@ func search(seed uint64, n int) {
 	for _, h := range poolHistories() {
 		evalHistory(h)
 	}
+	var prev []*op
+	g3 := &gen{r: hx.NewRng(seed ^ 0x3c19)}
 	for i := 0; i < n; i++ {
-		evalHistory(g.history(true))
+		h := g.history(true)
+		evalHistory(h)
+		// hidden state between calls (hygiene.go, class 3): every 4th history is also built interleaved with its
+		// predecessor or with an out-of-scope history (failing calls) on a second InitSegment
+		if i%4 == 3 {
+			if i%8 == 3 {
+				checkInterleaved(h, g3.history(false))
+			} else {
+				checkInterleaved(h, prev)
+			}
+		}
+		prev = h
 	}
 	outOfScope()
 	fmt.Fprintf(out, "EVALS\t%d\n", evals)
